@@ -179,7 +179,11 @@ func (r *rng) genOf(k kind, depth int) *SX {
 
 // statement inside a custom body between the draw and the ret: sometimes skips
 func (r *rng) customTail() *SX {
-	switch r.intn(4) {
+	switch r.intn(6) {
+	case 4:
+		return L(A("if"), L(A("mod"), A("c"), N(5), N(0)), L(A("error"), N(int64(r.intn(4)))))
+	case 5:
+		return L(A("cleanup"), L(A("error"), N(int64(r.intn(4)))))
 	case 0:
 		return L(A("if"), L(A("mod"), A("c"), N(3), N(0)), L(A("skip")))
 	case 1:
